@@ -963,6 +963,72 @@ func genRandom(rng *rand.Rand, idx int, hist bool) tcase {
 		}
 		roots[from].Leaves = append(roots[from].Leaves, lf)
 	}
+	// Borrowed prefixes: a base or identityref statement in a submodule uses a prefix that the
+	// submodule itself does not bind - only the module it belongs to, or a sibling submodule,
+	// imports something under it (and that module has an identity of the name).  Prefixes resolve
+	// through the imports of the declaring (sub)module: undefined, to be reported.  Mirrored: the
+	// submodule binds the same prefix to ANOTHER module than its owner does; its own import counts.
+	for si := nMods; si < len(roots); si++ {
+		S := roots[si]
+		if group[si] < 0 || rng.Intn(2) == 0 {
+			continue
+		}
+		bound := map[string]bool{S.Prefix: true}
+		for _, im := range S.Imports {
+			bound[im.Prefix] = true
+		}
+		var lend []gImport
+		for ri, R := range roots {
+			if ri != si && group[ri] == group[si] {
+				for _, im := range R.Imports {
+					if !bound[im.Prefix] {
+						lend = append(lend, im)
+					}
+				}
+			}
+		}
+		if len(lend) == 0 {
+			continue
+		}
+		im := lend[rng.Intn(len(lend))]
+		namesOf := func(g int) []string {
+			var out []string
+			for _, id := range ids {
+				if id.group == g {
+					out = append(out, id.name)
+				}
+			}
+			return out
+		}
+		ti := -1
+		for k := 0; k < nMods; k++ {
+			if roots[k].Name == im.Name {
+				ti = k
+			}
+		}
+		if ti < 0 || len(namesOf(ti)) == 0 {
+			continue
+		}
+		names := namesOf(ti)
+		if rng.Intn(3) == 0 {
+			// mirrored: the submodule imports another module under that prefix
+			for _, a := range rng.Perm(nMods) {
+				if a != ti && a != group[si] && len(namesOf(a)) > 0 {
+					S.Imports = append(S.Imports, gImport{Name: roots[a].Name, Prefix: im.Prefix})
+					names = namesOf(a)
+					break
+				}
+			}
+		}
+		base := im.Prefix + ":" + names[rng.Intn(len(names))]
+		kind := rng.Intn(3)
+		if kind != 1 {
+			S.Idents = append(S.Idents, gIdent{Name: fmt.Sprintf("lend%d", si), Bases: []string{base}})
+		}
+		if kind != 0 {
+			S.Leaves = append(S.Leaves, gLeaf{Name: fmt.Sprintf("b%d", si), HasBase: true, Base: base, Form: rng.Intn(4)})
+		}
+	}
 	if hist {
 		// A history: everything is loaded and processed, then a NEWER REVISION of a module or
 		// submodule that declares identities arrives and Process runs again.  Identityrefs in all
@@ -1055,6 +1121,20 @@ func seedCases() []tcase {
 			`submodule s { belongs-to m { prefix m; } revision 2020-01-01; identity BASE { base TOP; } identity OLD { base BASE; } leaf insub { type identityref { base BASE; } } }`,
 			`module n { namespace "urn:n"; prefix n; import m { prefix m; } identity Z { base m:BASE; } leaf-list far { type identityref { base m:BASE; } } }`,
 			`submodule s { belongs-to m { prefix m; } revision 2022-02-02; identity BASE { base TOP; } identity OLD { base BASE; } identity NEW { base OLD; } leaf insub { type identityref { base BASE; } } }`),
+		mk("submodule uses a prefix only its owner imports (identity base and identityref base)",
+			`module bm { namespace "urn:bm"; prefix bm; identity root; identity known { base root; } }`,
+			`module m { namespace "urn:m"; prefix m; import bm { prefix b; } include s; identity in-module { base b:root; } }`,
+			`submodule s { belongs-to m { prefix m; } identity in-submodule { base b:root; } identity ok { base m:in-module; } leaf l { type identityref { base b:root; } } leaf-list ll { type identityref { base b:known; } } }`),
+		mk("submodule uses a prefix only a sibling submodule imports",
+			`module bm { namespace "urn:bm"; prefix bm; identity root; }`,
+			`module m { namespace "urn:m"; prefix m; include s1; include s2; identity top; }`,
+			`submodule s1 { belongs-to m { prefix m; } import bm { prefix b; } identity fine { base b:root; } }`,
+			`submodule s2 { belongs-to m { prefix m; } identity borrowed { base b:root; } typedef t { type identityref { base b:root; } } leaf l { type t; } }`),
+		mk("submodule and owner bind one prefix to different modules",
+			`module b1 { namespace "urn:b1"; prefix b1; identity root; identity only1; }`,
+			`module b2 { namespace "urn:b2"; prefix b2; identity root; identity only2; }`,
+			`module m { namespace "urn:m"; prefix m; import b1 { prefix b; } include s; identity x { base b:root; } identity y { base b:only1; } }`,
+			`submodule s { belongs-to m { prefix m; } import b2 { prefix b; } identity sx { base b:root; } identity sy { base b:only2; } identity sz { base b:only1; } leaf l { type identityref { base b:root; } } }`),
 		mk("D3 self loop", `module m { namespace "urn:m"; prefix m; identity a { base a; } }`),
 		mk("D3 two-cycle", `module m { namespace "urn:m"; prefix m; identity a { base b; } identity b { base a; } identity c { base a; } identity top; identity d { base top; } }`),
 		mk("D3 cycle across modules",
@@ -1412,7 +1492,7 @@ func main() {
 	res.Evaluations = nCases
 	res.DistinctNontrivial = nNontrivial
 	res.Exhaustive = true
-	res.Rule = "source sets = corpus + seed witnesses + COMPLETE enumeration of small graphs (all directed graphs incl. self-loops on <= 3 identities and all DAGs on 4 identities; every assignment of the identities to two roots; roots = two modules importing each other | module + included submodule; distinct names | equal names across the two modules; the two modules with different | the same own prefix; bases written with and without prefix; one identityref leaf) + seeded random schemas (1-3 modules, 0-3 submodules included directly / by another submodule / by a foreign module / by nobody / belonging to an absent module, include cycles, 1-12 identities with 0-3 bases, names from a pool with upper/lower case and punctuation, own prefixes from a pool of two (modules often share one), import prefixes independent and legal by default, rarely clashing, names reused across modules, revisions and revision-dates, cycles, dangling and unknown-prefix bases, duplicate statements, missing imports/includes, identityref leaves, leaf-lists, union members and typedef'd identityrefs) + seeded histories (such a schema, then a newer revision of a module or submodule that declares a referenced identity, with identityrefs of all four forms naming it). Every set: several fresh Modules under permuted load orders, all Go results must be equal, a second Process, a history on one Modules (part of the texts, Process, the rest, Process) and ToEntry-before-Process must end in the same result (identityref items name the identity OBJECT by the revision that declares it and carry the list seen through it); Go result = model result (under two map-order oracles); specification evaluated on the Go result. exhaustive refers to the small-graph space. distinct_nontrivial = distinct source sets whose Go result has an identity with a non-empty list or an identity/cycle error"
+	res.Rule = "source sets = corpus + seed witnesses + COMPLETE enumeration of small graphs (all directed graphs incl. self-loops on <= 3 identities and all DAGs on 4 identities; every assignment of the identities to two roots; roots = two modules importing each other | module + included submodule; distinct names | equal names across the two modules; the two modules with different | the same own prefix; bases written with and without prefix; one identityref leaf) + seeded random schemas (1-3 modules, 0-3 submodules included directly / by another submodule / by a foreign module / by nobody / belonging to an absent module, include cycles, 1-12 identities with 0-3 bases, names from a pool with upper/lower case and punctuation, own prefixes from a pool of two (modules often share one), import prefixes independent and legal by default, rarely clashing, names reused across modules, revisions and revision-dates, cycles, dangling and unknown-prefix bases, duplicate statements, missing imports/includes, bases and identityrefs in submodules under a prefix that only the owner or a sibling submodule imports (also with the submodule binding that prefix to another module), identityref leaves, leaf-lists, union members and typedef'd identityrefs) + seeded histories (such a schema, then a newer revision of a module or submodule that declares a referenced identity, with identityrefs of all four forms naming it). Every set: several fresh Modules under permuted load orders, all Go results must be equal, a second Process, a history on one Modules (part of the texts, Process, the rest, Process) and ToEntry-before-Process must end in the same result (identityref items name the identity OBJECT by the revision that declares it and carry the list seen through it); Go result = model result (under two map-order oracles); specification evaluated on the Go result. exhaustive refers to the small-graph space. distinct_nontrivial = distinct source sets whose Go result has an identity with a non-empty list or an identity/cycle error"
 	res.Distribution["by_generator"] = tags
 	res.Distribution["go_outcomes"] = outcomes
 	res.Distribution["seed_and_corpus_cases"] = nSeed
